@@ -205,6 +205,29 @@ func RsCommandPayload(name, shape, stream string) []byte {
 			return rsCat(nm, rsAmfNum(1), rsConnectObjX(true, 0, 3000))
 		case "deepok":
 			return rsCat(nm, rsAmfNum(1), rsConnectObjX(true, 0, 40))
+		case "appnum", "appbool", "appobj", "tcnum", "oestr", "fvobj":
+			// a property of the command object with another AMF type than lal reads it with
+			val := map[string][]byte{"appnum": rsAmfNum(7), "appbool": {1, 1}, "appobj": {3, 0, 0, 9}, "tcnum": rsAmfNum(1935),
+				"oestr": rsAmfStr("3"), "fvobj": {3, 0, 0, 9}}[shape]
+			key := map[string]string{"appnum": "app", "appbool": "app", "appobj": "app", "tcnum": "tcUrl", "oestr": "objectEncoding",
+				"fvobj": "flashVer"}[shape]
+			b := []byte{3}
+			for _, k := range []string{"app", "flashVer", "tcUrl", "objectEncoding"} {
+				b = append(b, rsKey(k)...)
+				switch {
+				case k == key:
+					b = append(b, val...)
+				case k == "app":
+					b = append(b, rsAmfStr("live")...)
+				case k == "flashVer":
+					b = append(b, rsAmfStr("FMLE/3.0")...)
+				case k == "tcUrl":
+					b = append(b, rsAmfStr("rtmp://h/live")...)
+				default:
+					b = append(b, rsAmfNum(0)...)
+				}
+			}
+			return rsCat(nm, rsAmfNum(1), append(b, 0, 0, 9))
 		}
 	case "createStream":
 		switch shape {
@@ -536,6 +559,14 @@ func (e *RsEnc) Bytes(m RsMsg, stream string) (b []byte, cuts []int) {
 			p = rsBe32(0xffffffff)
 		case "4":
 			p = rsBe32(2500000)
+		case "4one":
+			p = rsBe32(1)
+		case "4two":
+			p = rsBe32(2)
+		case "4three":
+			p = rsBe32(3)
+		case "4h":
+			p = rsBe32(0x80000000)
 		case "5":
 			p = append(rsBe32(2500000), 2)
 		}
